@@ -173,12 +173,14 @@ class StreamDecoder:
         self.got_contact = False
         self.msgs = []
         self.error = None
+        self.feeds = []
 
     def feed(self, data, stamp=None):
         ''' Append octets; returns the list of newly completed messages.
         ``stamp`` is attached to every message completed by this feed. '''
         if self.error is not None:
             return []
+        self.feeds.append((self.offset + len(self.buf), stamp))
         self.buf += data
         out = []
         pos = 0
@@ -197,15 +199,28 @@ class StreamDecoder:
             msg['offset'] = self.offset + pos
             msg['end'] = self.offset + newpos
             msg['stamp'] = stamp
+            msg['start_stamp'] = self._stamp_at(msg['offset'])
             out.append(msg)
             pos = newpos
         del self.buf[:pos]
         self.offset += pos
+        # keep only the feeds that can still hold the start of a pending message
+        while len(self.feeds) > 1 and self.feeds[1][0] <= self.offset:
+            self.feeds.pop(0)
         self.msgs.extend(out)
         return out
 
     def pending(self):
         return len(self.buf)
+
+    def _stamp_at(self, offset):
+        ''' Stamp of the feed that delivered the octet at ``offset``. '''
+        found = None
+        for (start, stamp) in reversed(self.feeds):
+            if start <= offset:
+                found = stamp
+                break
+        return found
 
 
 class Grammar:
